@@ -12,6 +12,15 @@ import (
 )
 
 func main() {
+	if len(os.Args) > 2 && os.Args[1] == "-child" {
+		f, ok := checks.Children[os.Args[2]]
+		if !ok {
+			fmt.Println("unknown child", os.Args[2])
+			os.Exit(2)
+		}
+		f(os.Args[3:])
+		return
+	}
 	id := flag.String("id", "", "property id")
 	tier := flag.String("tier", "quick", "quick|thorough")
 	replay := flag.String("replay", "", "replay file")
